@@ -1364,6 +1364,57 @@ mod imp {
                     obs = obs
                 )
             };
+            // a DELAYED send is routed to the session its target expression named when the <send> executed: the
+            // variable is re-assigned to another live session right afterwards
+            v.push(Scenario {
+                name: "delayed-send-routing",
+                quick_bound: 0,
+                thorough_bound: 1,
+                atomics: false,
+                body: Box::new(move |log, notes| {
+                    Box::new(move || {
+                        let ex = FsmExecutor::new_without_io_processor();
+                        let (tx, rx) = verif_sync::mpsc::channel::<String>();
+                        let rcv = format!(
+                            r##"<scxml {ns} name="rcv"><state id="s"><transition event="*"><script>mark('rx', _sessionid, _event.name, _event.sendid, _event.origintype); notify('got' + _sessionid)</script></transition></state></scxml>"##,
+                            ns = NS
+                        );
+                        let a = start_n(&ex, &rcv, &log, &tx);
+                        let b = start_n(&ex, &rcv, &log, &tx);
+                        let snd = format!(
+                            r##"<scxml {ns} name="snd"><datamodel><data id="tv" expr="'#_scxml_{a}'"/></datamodel><state id="s"><onentry>
+<send event="hello" id="h1" delay="10ms" targetexpr="tv"/><assign location="tv" expr="'#_scxml_{b}'"/></onentry></state></scxml>"##,
+                            ns = NS,
+                            a = a.session_id,
+                            b = b.session_id
+                        );
+                        let s = start_n(&ex, &snd, &log, &tx);
+                        notes.lock().unwrap().push(format!("a={} b={}", a.session_id, b.session_id));
+                        // whoever gets it reports
+                        let _ = rx.recv();
+                        cancel_and_join(s);
+                        cancel_and_join(a);
+                        cancel_and_join(b);
+                    })
+                }),
+                oracle: Box::new(|o: &Obs| {
+                    basic_outcome(o)?;
+                    let note = o.notes.first().cloned().unwrap_or_default();
+                    let a: String = note.split(' ').next().unwrap_or("").trim_start_matches("a=").to_string();
+                    let got: Vec<(String, String, String)> = o
+                        .recs
+                        .iter()
+                        .filter_map(|(_, r)| match r {
+                            Rec::Mark { args, .. } if args.first().map(|x| x == "rx").unwrap_or(false) && args[2] != fsm::EVENT_CANCEL_SESSION => Some((args[1].clone(), args[2].clone(), args[3].clone())),
+                            _ => None,
+                        })
+                        .collect();
+                    if got != vec![(a.clone(), "hello".to_string(), "h1".to_string())] {
+                        return Err(("routing-delayed".into(), format!("the delayed <send> named session {} when it executed; (session, event, sendid) received: {:?}", a, got)));
+                    }
+                    Ok("ok".into())
+                }),
+            });
             let sd = sib_doc.clone();
             v.push(Scenario {
                 name: "routing-parent-child-sibling",
